@@ -1,14 +1,16 @@
-(* Model/GCConf.v -- the collector as a function of the process-wide configuration as well.
+(* Model/GCConf.v -- what the collector's source has to do with the process-wide configuration: COUNTED SOURCE FACTS only.
 
-   GarbageCollector.collect() under configuration c is (what it does to the store, which of its logging statements may emit a
-   record).  The first component is Model/GC.v's gc_run: translator/gen_gclog.py establishes on every run, over the whole module
-   garbage_collector.py, that the logger is used in logging STATEMENTS only (no isEnabledFor / level / getEffectiveLevel, no
-   logging call inside an expression), that every argument of such a statement is a pure observation (no call that could
-   consume an iterator or run other code), and that the module reads no environment variable (GC_ENV_VARS = []) -- it fails
-   closed otherwise, and this file does not compile.  The second component ranges over the regenerated table GC_LOG_SITES.
-   Tied to the code by running every collection of every generated history under a drawn configuration: gc_run correspondence
-   (outcome, exact deleted set, keep sets, call trace: all predicted WITHOUT the configuration) and 'logsites' (every record the
-   real collection emitted comes from a statement in may_emit c).  Definitions only. *)
+   Model/GC.v's gc_run does not take the configuration as an input.  That is justified by the source, not by a theorem about
+   gc_run: translator/gen_gclog.py establishes on every run (a) lexically, over the whole module garbage_collector.py, that the
+   logger is used in logging STATEMENTS only (no isEnabledFor / level / getEffectiveLevel, no logging call inside an expression),
+   that every argument of such a statement is a pure observation, and that the module reads no environment variable -- it fails
+   closed otherwise --, and (b) by a counting scan over the functions of file_manager, metadata_manager, storage_backend,
+   s3_consistency, integrity and disk_utils reachable by name from the collector, the tables GC_CONF_READS / GC_ENV_READS of every
+   other use of a logger / of the environment there.  Proofs/GCConfProofs.v conf_not_consulted states that these tables are empty
+   (it stops compiling when the source changes); nothing is claimed about code outside that scope.
+   may_emit ranges over the regenerated table GC_LOG_SITES; it is tied to the code by the 'logsites' correspondence (every record a
+   real collection emitted comes from a statement in may_emit c), and every collection of every generated history runs under a drawn
+   configuration while gc_run predicts outcome, exact deleted set, keep sets and call trace WITHOUT it.  Definitions only. *)
 From Coq Require Import ZArith List String Bool.
 Require Import DS.Gen.GenGCLog DS.Model.LogConf DS.Model.GC.
 Import ListNotations.
@@ -18,7 +20,3 @@ Definition may_emit (c : logconf) : list (string * Z) := filter (fun s => enable
 
 (* the environment variables of GC_ENV_VARS as the collector would read them: its only configuration input beside the log levels *)
 Definition gc_env_view (c : logconf) : list (option string) := map (getenv (lc_env c)) GC_ENV_VARS.
-
-Definition gc_run_conf (c : logconf) (tp : string) (grace now timeout : Z) (o : oracle) (snaps : list string) (st : store)
-  : result * list (string * Z) :=
-  (gc_run tp grace now timeout o snaps st, may_emit c).
